@@ -12,7 +12,7 @@ if orig.count(old) != 1:
     print(f"mutation site not unique/found: count={orig.count(old)}"); sys.exit(3)
 try:
     open(full, 'w').write(orig.replace(old, new))
-    r = subprocess.run(['/verif/check'] + args, capture_output=True, text=True)
+    r = subprocess.run(['/verif/check'] + args, capture_output=True, text=True, env=dict(os.environ, VERIF_TIMEOUT=os.environ.get('VERIF_TIMEOUT','240')))
     out = r.stdout + r.stderr
     lines = [l for l in out.splitlines() if l.startswith(('VIOLATION', 'KNOWN', 'INCONCLUSIVE', '  check=')) or 'evaluations=' in l or 'error' in l.lower()]
     print('\n'.join(lines[:12]))
